@@ -697,13 +697,27 @@ gen_world(Ctx& ctx, World& w, bool for_gradient)
 }
 
 static shared_ptr<ProjDataInfo>
-gen_template(Ctx& ctx, const World& w, vg::PdiSpec& ps, bool for_projector)
+gen_template(Ctx& ctx, const World& w, vg::PdiSpec& ps, bool for_projector, bool never_single_tof_position = false)
 {
   vg::PdiOpts po;
   po.allow_arccorr = false; // list-mode events of discrete detectors: is_valid_template() accepts non-arc-corrected templates only
   po.allow_ge = !for_projector;
   po.allow_even_span = !for_projector;
   ps = vg::gen_pdi(ctx.rng, w.ss, po);
+  if (!for_projector && w.ss.tof_bins > 0 && ps.tof_mash > 0)
+    {
+      // most admissible mashing factors leave a single TOF position: prefer templates with >= 3 TOF positions (otherwise
+      // num_TOF_bins_in_memory is hardly exercised).  TOF data mashed to ONE position are never sent through Interfile files:
+      // the header is then written with 4 dimensions plus a "matrix axis label [5]" and cannot be read back (an Interfile
+      // matter, see DESIGN 9.2 / C02; here files are only the observation channel of the multi-frame runs).
+      std::vector<int> multi;
+      for (int m = 1; m <= w.ss.tof_bins / 3; ++m)
+        if ((w.ss.tof_bins / m) % 2 == 1)
+          multi.push_back(m);
+      const bool single = w.ss.tof_bins / ps.tof_mash == 1;
+      if (single && !multi.empty() && (never_single_tof_position || ctx.rng.coin(0.7)))
+        ps.tof_mash = ctx.rng.pick(multi);
+    }
   if (for_projector)
     {
       ps.reduce_segments = -1;
@@ -729,15 +743,15 @@ part_h(Ctx& ctx)
   vf::Rng& rng = ctx.rng;
   World w;
   gen_world(ctx, w, false);
+  // ---- what to run: 0 all events (no frame definitions), 1 one frame, 2 frames (partition / gaps), 3 num_events_to_store
+  const int mode = static_cast<int>(ctx.idx % 4);
   vg::PdiSpec tps, lps;
-  w.tpl = gen_template(ctx, w, tps, false);
+  w.tpl = gen_template(ctx, w, tps, false, /*never_single_tof_position=*/mode == 2);
   // the geometry the list-mode object reports is independent of the template (only the scanner has to agree)
   w.lm_pdi = rng.coin(0.5) ? w.tpl->create_shared_clone() : gen_template(ctx, w, lps, false);
   w.g.init(w.tpl);
   const int nseg = w.g.max_seg - w.g.min_seg + 1;
 
-  // ---- what to run: 0 all events (no frame definitions), 1 one frame, 2 frames (partition / gaps), 3 num_events_to_store
-  const int mode = static_cast<int>(ctx.idx % 4);
   // frames without a time mark inside [start,end) are a separate input class (see final report): rare, keyed separately
   const bool sparse_marks_class = (mode == 1 || mode == 2) && rng.coin(0.06);
   const bool has_delayeds = rng.coin(0.8);
